@@ -16,7 +16,8 @@ VARIABLES trk, hist, pos
 hvars == <<trk, hist, pos>>
 \* bisect_left on the cumulative index, started at waypoint position p
 AfterFrom(L, d, p) == IF d <= Cum(L, p) THEN p ELSE CHOOSE k \in (p + 1)..Len(L) : Cum(L, k - 1) < d /\ d <= Cum(L, k)
-Queries(L) == [op : HOps \cap {"location"}, a : 0..Total(L), b : {0}] \cup [op : HOps \cap {"step"}, a : 0..Total(L), b : {0, 1, 3}]
+\* (locations up to two units beyond the end: refused - a refusal leaves the object as it was)
+Queries(L) == [op : HOps \cap {"location"}, a : 0..(Total(L) + 2), b : {0}] \cup [op : HOps \cap {"step"}, a : 0..Total(L), b : {0, 1, 3}]
 Q(t, q) == [legs |-> t.legs, over |-> t.over, op |-> q.op, a |-> q.a, b |-> q.b]
 \* the answer of the modelled object: leg = the waypoint found by the search
 Target(q) == IF q.op = "location" THEN q.a ELSE q.a + q.b
@@ -38,6 +39,12 @@ MultiLeg == {L \in LegSets : Len(L) > 1}
 LocationOnly == {"location"}
 BothOps == {"location", "step"}
 
+\* family "repeat after refusal": any query, then a refused query, then the SAME refused query again (and a
+\* fourth, arbitrary one): the repeated request is refused like the first one
+FamNext == \/ Len(hist) \in {0, 1, 3} /\ HNext /\ (Len(hist) = 1 => hist'[2].o.refused)
+           \/ Len(hist) = 2 /\ Ask(hist[2].q)
+FSpec == HInit /\ [][FamNext]_hvars
+RepeatedRefusalIsRefused == Len(hist) >= 3 => hist[3].o.refused
 \* histories: every sequence of D queries (exhaustive), or random walks
 HEmit == IF Len(hist) < D THEN TRUE ELSE PrintT("@@" \o ToJson([trk |-> trk, hist |-> hist])) /\ FALSE
 RandQ(n) == RandomElement(Queries(trk.legs))
